@@ -12,7 +12,8 @@ from typing import Dict, List, Optional
 
 from ..algebra import Rat, to_rat
 from ..index import AnalysisError, call_name, dotted, norm, norm1, names_in
-from .common import calls, enclosing, fctx, in_body, is_name, method_calls, stmts, store_targets
+from ..sem import Sem, bind_target, inline_private_helpers, list_elements
+from .common import calls, enclosing, enclosing_all, fctx, in_body, is_name, method_calls, stmts, store_targets
 from .spin import chain_parts, channel_of_name
 
 LEVEL = "other"
@@ -132,32 +133,56 @@ def run(ctx) -> None:
 
     # ---------------------------------------------------------------- R26.1
     r1 = ctx.rule("R26.1", "interpolated quantities are x0 + alpha·(x1 − x0) over every common key", min_instances=2)
+    FS = Sem(idx, f)
     n_aff = 0
-    for s in stmts(f.node):
-        if isinstance(s, ast.Assign) and alpha in names_in(s.value):
-            n_aff += 1
-            r1.instance(f"{f.short}: {norm1(s, 100)}")
-            msg = _affine_ok(s.value, alpha)
-            r1.check(msg is None, f"`{norm1(s.targets[0])}` is affine in alpha with endpoints system0/system1", f, s,
-                     f"`{norm1(s.value)}` is not the linear mix of system0 and system1: {msg}; the endpoints alpha=0/1 do not "
-                     f"reproduce the input systems")
-            # matrix loop must cover all keys
-            fl = enclosing(pm, s, ast.For)
-            if fl is not None:
-                it = norm(fl.iter)
-                r1.check(it in ("self.system0._XX_R", "self.system0._XX_R.keys()", "self.system1._XX_R", "self.system1._XX_R.keys()"),
-                         "the loop runs over every (common) matrix key", f, fl,
-                         f"matrices are interpolated over `{it}`, not over every key of the (equalised) _XX_R dictionaries")
-                key = fl.target.id if isinstance(fl.target, ast.Name) else None
-                tg = s.targets[0]
-                r1.check(isinstance(tg, ast.Subscript) and norm(tg.value).endswith("._XX_R") and is_name(tg.slice, key),
-                         "result stored under the same key", f, s, f"interpolated matrix stored to `{norm1(tg)}`")
+    rets0 = [s_ for s_ in stmts(f.node) if isinstance(s_, ast.Return)]
+    newname0 = rets0[0].value.id if rets0 and isinstance(rets0[0].value, ast.Name) else None
+    mixes = []       # (report node, target node, value expr, evaluation node, loop description)
+    for s_ in stmts(f.node):
+        if isinstance(s_, ast.Assign) and isinstance(s_.targets[0], (ast.Attribute, ast.Subscript)) and norm(s_.targets[0]).startswith(f"{newname0}."):
+            v_ = FS.resolve(s_.value, cfg.node(s_))
+            if alpha in names_in(v_):
+                mixes.append((s_, s_.targets[0], v_, enclosing(pm, s_, ast.For)))
+    for c_ in method_calls(f.node, "update"):
+        if norm(c_.func.value) == f"{newname0}._XX_R" and c_.args and isinstance(c_.args[0], ast.DictComp) and len(c_.args[0].generators) == 1:
+            dc = c_.args[0]
+            tv = FS.comp_element(dc, du.node_of_expr(c_))
+            if isinstance(tv, ast.Tuple):
+                tgt = ast.Subscript(value=c_.func.value, slice=tv.elts[0], ctx=ast.Store())
+                mixes.append((enclosing(pm, c_, ast.stmt), tgt, tv.elts[1], dc.generators[0]))
+    for st_, tg, v_, lp_ in mixes:
+        n_aff += 1
+        r1.instance(f"{f.short}: {norm1(st_, 100)}")
+        msg = _affine_ok(v_, alpha)
+        r1.check(msg is None, f"`{norm1(tg)}` is affine in alpha with endpoints system0/system1", f, st_,
+                 f"`{norm1(v_, 140)}` is not the linear mix of system0 and system1: {msg}; the endpoints alpha=0/1 do not "
+                 f"reproduce the input systems")
+        if lp_ is not None:
+            it = norm(lp_.iter)
+            r1.check(it in ("self.system0._XX_R", "self.system0._XX_R.keys()", "self.system1._XX_R", "self.system1._XX_R.keys()", "self.system0._XX_R.items()",
+                            "self.system1._XX_R.items()"),
+                     "the loop runs over every (common) matrix key", f, lp_ if isinstance(lp_, ast.For) else st_,
+                     f"matrices are interpolated over `{it}`, not over every key of the (equalised) _XX_R dictionaries")
+            key = lp_.target.id if isinstance(lp_.target, ast.Name) else (norm(lp_.target.elts[0]) if isinstance(lp_.target, ast.Tuple) else None)
+            r1.check(isinstance(tg, ast.Subscript) and norm(tg.value).endswith("._XX_R") and norm(tg.slice) == key,
+                     "result stored under the same key", f, st_, f"interpolated matrix stored to `{norm1(tg)}`")
     if n_aff < 2:
         raise AnalysisError("interpolate(): expected the centre mix and the matrix mix")
     init = cls.methods["__init__"]
-    ti = norm(init.node)
-    r1.check("matrix_keys0.intersection(matrix_keys1)" in ti and "del sys._XX_R[key]" in ti,
-             "__init__ equalises the key sets of both systems", init, init.node,
+    init_eq = inline_private_helpers(idx, init)
+    IS = Sem(idx, init_eq)
+    dels = [s_ for s_ in ast.walk(init_eq.node) if (isinstance(s_, ast.Delete) and isinstance(s_.targets[0], ast.Subscript) and norm(s_.targets[0].value).endswith("._XX_R")) or
+            (isinstance(s_, ast.Expr) and isinstance(s_.value, ast.Call) and isinstance(s_.value.func, ast.Attribute) and s_.value.func.attr == "pop"
+             and norm(s_.value.func.value).endswith("._XX_R"))]
+    okeq = False
+    for d_ in dels:
+        lp_ = enclosing(IS.pm, d_, ast.For)
+        if lp_ is None:
+            continue
+        src = IS.rnorm(lp_.iter, IS.cfg.node(lp_))
+        if "self.system0._XX_R" in src and "self.system1._XX_R" in src and (("intersection" in src and ("union" in src or " - " in src)) or "symmetric_difference" in src or " ^ " in src):
+            okeq = True
+    r1.check(okeq, "__init__ equalises the key sets of both systems", init, dels[0] if dels else init.node,
              "__init__ no longer removes matrices present in only one system", stmt="key equalisation")
     rets = [s for s in stmts(f.node) if isinstance(s, ast.Return)]
     newname = rets[0].value.id if rets and isinstance(rets[0].value, ast.Name) else None
@@ -193,40 +218,101 @@ def run(ctx) -> None:
 
     # ---------------------------------------------------------------- R26.3
     r3 = ctx.rule("R26.3", "re-embedding uses each system's own index map; spin channels paired", min_instances=2)
-    icfg, idu, ipm = fctx(init)
-    zips = [z for z in calls(init.node, "zip", suffix=False) if len(z.args) == 2 and all(isinstance(a, (ast.List, ast.Tuple)) for a in z.args)]
-    if len(zips) != 1:
-        raise AnalysisError("SystemInterpolator.__init__: zip([system0, system1], [map0, map1]) not found")
-    z = zips[0]
-    r3.instance(f"{init.short}: {norm1(z, 90)}")
-    okpair = True
-    for se, me in zip(z.args[0].elts, z.args[1].elts):
-        k = _sysnum(se)
-        md = idu.single_def(me.id, idu.node_of_expr(z)) if isinstance(me, ast.Name) else None
-        src = None
-        if md is not None and isinstance(md.value, ast.ListComp):
-            src = md.value.generators[0].iter
-            srcd = idu.single_def(src.id, md.node) if isinstance(src, ast.Name) else None
-            srck = None
-            if srcd is not None:
-                for x in ast.walk(srcd.value):
-                    if isinstance(x, ast.Attribute) and _sysnum(x) is not None:
-                        srck = _sysnum(x)
-            if srck != k:
-                okpair = False
+    init_i = inline_private_helpers(idx, init)
+    IS2 = Sem(idx, init_i)
+    icfg, idu, ipm = IS2.cfg, IS2.du, IS2.pm
+    # the embedding store  NEW[MAP] = OLD  (NEW a zero array indexed by the union R-set)
+    emb = []
+    for s_ in ast.walk(init_i.node):
+        if isinstance(s_, ast.Assign) and isinstance(s_.targets[0], ast.Subscript) and isinstance(s_.targets[0].slice, ast.Name) and not isinstance(s_.value, ast.Call):
+            tgv = IS2.rnorm(s_.targets[0].value, icfg.node(s_))
+            if "np.zeros(" in tgv or norm(s_.targets[0].value).endswith("]") and "np.zeros(" in IS2.rnorm(s_.targets[0].value, icfg.node(s_)):
+                emb.append(s_)
+    if len(emb) != 1:
+        emb2 = [s_ for s_ in ast.walk(init_i.node) if isinstance(s_, ast.Assign) and isinstance(s_.targets[0], ast.Subscript) and isinstance(s_.targets[0].slice, ast.Name)
+                and enclosing(ipm, s_, ast.For) is not None and "_XX_R" in IS2.rnorm(s_.value, icfg.node(s_)) and not isinstance(s_.value, ast.Call)]
+        emb = emb2 if len(emb2) == 1 else emb
+    if len(emb) != 1:
+        r3.expect(False, "embedding store located", init, init.node, "SystemInterpolator.__init__: the store `new_matrix[index map] = old matrix` was not found")
+    else:
+        es = emb[0]
+        r3.instance(f"{init.short}: {norm1(es, 90)}")
+        outer = None
+        for l_ in enclosing_all(ipm, es, ast.For):
+            outer = l_
+        els = list_elements(IS2, outer.iter, icfg.node(outer)) if outer is not None else None
+        if els is None or len(els) != 2:
+            r3.expect(False, "loop over the two systems enumerated", init, outer or es, "SystemInterpolator.__init__: the loop over (system, index map) pairs could not be enumerated")
         else:
-            okpair = False
-    r3.check(okpair, "system k is re-embedded with the index map built from its own R list", init, enclosing(ipm, z, ast.stmt),
-             "a system's matrices are re-embedded with the index map of the other system's R-vectors: blocks land on the "
-             "wrong R")
-    emb = [s for s in stmts(init.node) if isinstance(s, ast.Assign) and isinstance(s.targets[0], ast.Subscript)
-           and norm(s.targets[0].value) == "new_matrix"]
-    r3.check(len(emb) == 1 and is_name(emb[0].targets[0].slice, "iRmap") and norm(emb[0].value) == "sys._XX_R[key]",
-             "new_matrix[iRmap] = old matrix", init, emb[0] if emb else init.node, "re-embedding statement changed")
-    rv = [s for s in stmts(init.node) if isinstance(s, ast.Assign) and norm(s.targets[0]) == "sys.rvec"]
-    r3.check(len(rv) == 1 and "shifts_left_red=sys.rvec.shifts_left_red" in norm(rv[0].value)
-             and "iRvec=iRvec_array" in norm(rv[0].value), "each system keeps its own shifts on the union R-set", init,
-             rv[0] if rv else init.node, "the union-R Rvectors object does not keep the system's own shifts")
+            okpair = True
+            seen_sys = []
+            for el in els:
+                env = bind_target(outer.target, el, {})
+                if env is None:
+                    okpair = False
+                    break
+
+                def ev(expr, env=env):
+                    """value of a loop-body expression in this iteration (locals of the body substituted, literal lists indexed)"""
+                    x = expr
+                    for _ in range(6):
+                        if isinstance(x, ast.Name) and x.id in env:
+                            x = env[x.id]
+                            continue
+                        if isinstance(x, ast.Name):
+                            dd = idu.single_def(x.id, icfg.node(es))
+                            if dd is not None and dd.kind == "assign" and in_body(outer.body, dd.stmt):
+                                x = IS2._subst(dd.value, env)
+                                continue
+                        if isinstance(x, ast.Subscript) and isinstance(x.slice, ast.Constant) and isinstance(x.slice.value, int) and isinstance(x.value, ast.Name):
+                            le = list_elements(IS2, x.value, icfg.node(outer))
+                            if le is not None and x.slice.value < len(le):
+                                x = le[x.slice.value]
+                                continue
+                        break
+                    return x
+                mp = ev(es.targets[0].slice)
+                old = ev(es.value)
+                # provenance of the map: the list it enumerates (MAP = [index[R] for R in <R list of one system>])
+                mpv = mp
+                for _ in range(4):
+                    if isinstance(mpv, ast.Name):
+                        dd = idu.single_def(mpv.id, icfg.node(outer))
+                        if dd is None or dd.kind != "assign":
+                            break
+                        mpv = dd.value
+                    else:
+                        break
+                if isinstance(mpv, (ast.ListComp, ast.GeneratorExp)) and len(mpv.generators) == 1:
+                    mtxt = IS2.rnorm(IS2._subst(mpv.generators[0].iter, env), icfg.node(outer))
+                else:
+                    mtxt = IS2.rnorm(mpv, icfg.node(outer)) if not any(isinstance(n, ast.Name) and n.id in env for n in ast.walk(mpv)) else norm(mpv)
+                tnames = {n.id for n in ast.walk(outer.target) if isinstance(n, ast.Name)}
+                saved_keep = IS2.keep_names
+                IS2.keep_names = IS2.keep_names | tnames
+                try:
+                    otxt = norm(IS2._subst(IS2.resolve(old, icfg.node(es)), env)) if isinstance(old, (ast.Name, ast.Subscript, ast.Attribute)) else norm(old)
+                finally:
+                    IS2.keep_names = saved_keep
+                k_old = "0" if "system0" in otxt and "system1" not in otxt else "1" if "system1" in otxt and "system0" not in otxt else None
+                k_map = "0" if "system0" in mtxt and "system1" not in mtxt else "1" if "system1" in mtxt and "system0" not in mtxt else None
+                seen_sys.append(k_old)
+                if k_old is None or k_map is None or k_old != k_map:
+                    okpair = False
+            r3.check(okpair and sorted(x for x in seen_sys if x) == ["0", "1"], "system k is re-embedded with the index map built from its own R list", init, es,
+                     "a system's matrices are re-embedded with the index map of the other system's R-vectors: blocks land on the "
+                     "wrong R")
+        rv = [s_ for s_ in ast.walk(init_i.node) if isinstance(s_, ast.Assign) and isinstance(s_.targets[0], ast.Attribute) and s_.targets[0].attr == "rvec"
+              and isinstance(s_.value, ast.Call) and call_name(s_.value).endswith("Rvectors")]
+        okrv = False
+        if len(rv) == 1:
+            obj = norm(rv[0].targets[0].value)
+            IS2.keep_names = IS2.keep_names | {obj}
+            kw = {k.arg: IS2.rnorm(k.value, icfg.node(rv[0])) for k in rv[0].value.keywords}
+            okrv = kw.get("shifts_left_red") == f"{obj}.rvec.shifts_left_red" and kw.get("shifts_right_red", f"{obj}.rvec.shifts_right_red") in (f"{obj}.rvec.shifts_right_red", "None") \
+                and "set(" in kw.get("iRvec", "") and "union" in kw.get("iRvec", "")
+        r3.check(okrv, "each system keeps its own shifts on the union R-set", init,
+                 rv[0] if rv else init.node, "the union-R Rvectors object does not keep the system's own shifts")
     # SOC: channel pairing
     si = soc.methods.get("__init__")
     sf = soc.methods.get("interpolate")
